@@ -13,7 +13,6 @@ Arguments Stalled {A}.
 Definition nonempty (d : bytes) : Prop := d <> [].
 
 Record wf (st : bst) : Prop := {
-  wf_src : Forall nonempty (b_src st);
   wf_err : b_err st = true -> b_src st = [] }.
 
 (* ---- the underlying Read ------------------------------------------------------------------------ *)
@@ -27,20 +26,30 @@ Proof.
   pose proof (firstn_length n d) as FL. rewrite FS in FL. lia.
 Qed.
 
+Lemma skip_empty_concat : forall src, concat (skip_empty src) = concat src.
+Proof. induction src as [|d t IH]; [reflexivity|]. destruct d; [exact IH|reflexivity]. Qed.
+
+Lemma skip_empty_head : forall src d t, skip_empty src = d :: t -> d <> [].
+Proof.
+  induction src as [|d0 t0 IH]; intros d t H; [discriminate|]. destruct d0; cbn in H.
+  - eapply IH. exact H.
+  - inversion H; subst. discriminate.
+Qed.
+
 Lemma src_read_spec : forall room src eofw d e src',
-  (1 <= room)%nat -> Forall nonempty src -> src_read room src eofw = (d, e, src') ->
-  d ++ concat src' = concat src /\ Forall nonempty src' /\ (e = true -> src' = []) /\
+  (1 <= room)%nat -> src_read room src eofw = (d, e, src') ->
+  d ++ concat src' = concat src /\ (e = true -> src' = []) /\
   (e = false -> d <> []) /\ (length d <= room)%nat.
 Proof.
-  intros room src eofw d e src' Hr F H. unfold src_read in H. destruct src as [|d0 t].
-  - inversion H; subst. repeat split; try constructor; try reflexivity; try discriminate. cbn. lia.
-  - inversion F as [|? ? N0 Ft]; subst. destruct (Nat.leb (length d0) room) eqn:L.
+  intros room src eofw d e src' Hr H. unfold src_read in H. rewrite <- (skip_empty_concat src).
+  destruct (skip_empty src) as [|d0 t] eqn:S.
+  - inversion H; subst. repeat split; try reflexivity; try discriminate. cbn. lia.
+  - pose proof (skip_empty_head _ _ _ S) as N0. destruct (Nat.leb (length d0) room) eqn:L.
     + inversion H; subst. apply Nat.leb_le in L. repeat split; try assumption.
       * intros E. apply andb_true_iff in E. destruct E as [E _]. destruct src'; [reflexivity|discriminate].
       * intros _. exact N0.
     + inversion H; subst. apply Nat.leb_gt in L. repeat split.
       * cbn [concat]. rewrite app_assoc, firstn_skipn. reflexivity.
-      * constructor; [apply skipn_nonempty; exact L|exact Ft].
       * discriminate.
       * intros _. apply firstn_nonempty; [exact N0|exact Hr].
       * rewrite firstn_length. apply Nat.le_min_l.
@@ -56,41 +65,34 @@ Section Facts.
     absl (fill bsz st) = absl st /\ wf (fill bsz st) /\
     (b_err (fill bsz st) = false -> (length (b_buf st) < length (b_buf (fill bsz st)))%nat).
   Proof.
-    intros st [Fs Fe] Hl. unfold fill.
+    intros st [Fe] Hl. unfold fill.
     destruct (src_read (bsz - length (b_buf st)) (b_src st) (b_eofw st)) as [[d e] src'] eqn:R.
     assert (Hroom : (1 <= bsz - length (b_buf st))%nat) by lia.
-    destruct (src_read_spec _ _ _ _ _ _ Hroom Fs R) as [A [B [C [D E]]]].
-    unfold absl. cbn [b_buf b_src b_err]. repeat split.
+    destruct (src_read_spec _ _ _ _ _ _ Hroom R) as [A [C [D E]]].
+    unfold absl. cbn [b_buf b_src b_err]. split; [|split].
     - rewrite <- app_assoc, A. reflexivity.
-    - exact B.
-    - exact C.
+    - constructor. cbn [b_err b_src]. exact C.
     - intros He. specialize (D He). rewrite app_length. destruct d; [contradiction|]. cbn. lia.
   Qed.
 
   Lemma fill_meas : forall st, wf st -> (length (b_buf st) < bsz)%nat -> b_err st = false ->
     (meas (fill bsz st) < meas st)%nat.
   Proof.
-    intros st [Fs Fe] Hl He. unfold meas, fill, src_read. rewrite He.
-    destruct (b_src st) as [|d0 t]; [cbn; lia|].
-    inversion Fs as [|? ? N0 _]; subst.
-    destruct (Nat.leb (length d0) (bsz - length (b_buf st))) eqn:L; cbn [b_src b_err concat].
-    - rewrite app_length. destruct d0; [contradiction|]. cbn [length]. destruct (is_nil t && b_eofw st); lia.
-    - apply Nat.leb_gt in L. rewrite !app_length, skipn_length. lia.
+    intros st [Fe] Hl He. unfold meas, fill. rewrite He.
+    destruct (src_read (bsz - length (b_buf st)) (b_src st) (b_eofw st)) as [[d e] src'] eqn:R.
+    assert (Hroom : (1 <= bsz - length (b_buf st))%nat) by lia.
+    destruct (src_read_spec _ _ _ _ _ _ Hroom R) as [A [C [D E]]].
+    cbn [b_src b_err]. rewrite <- A, app_length. destruct e.
+    - rewrite (C eq_refl). cbn. lia.
+    - specialize (D eq_refl). destruct d; [contradiction|]. cbn [length]. lia.
   Qed.
 
   (* ---- ReadByte ---------------------------------------------------------------------------------- *)
 
-  Lemma absl_nil_src : forall st, wf st -> absl st = [] -> b_buf st = [] /\ b_src st = [].
-  Proof.
-    intros st [Fs _] H. unfold absl in H. apply app_eq_nil in H. destruct H as [Hb Hc]. split; [exact Hb|].
-    destruct (b_src st) as [|d t]; [reflexivity|]. inversion Fs as [|? ? N0 _]; subst.
-    cbn in Hc. apply app_eq_nil in Hc. destruct Hc as [Hd _]. contradiction.
-  Qed.
-
   Lemma wf_with_buf : forall st b, wf st -> wf (with_buf st b).
-  Proof. intros st b [A B]. split; assumption. Qed.
+  Proof. intros st b [A]. split; assumption. Qed.
   Lemma wf_clear_err : forall st, wf st -> wf (clear_err st).
-  Proof. intros st [A B]. split; [exact A|discriminate]. Qed.
+  Proof. intros st [A]. split; discriminate. Qed.
 
   Lemma readbyte_spec : forall st, wf st ->
     exists st', wf st' /\
@@ -103,14 +105,14 @@ Section Facts.
     destruct (b_buf st) as [|c t] eqn:B.
     - destruct (b_err st) eqn:E.
       + exists (clear_err st). split; [apply wf_clear_err; exact W|].
-        destruct W as [Fs Fe]. unfold absl. rewrite B, (Fe E). cbn. split; [reflexivity|].
+        destruct W as [Fe]. unfold absl. rewrite B, (Fe E). cbn. split; [reflexivity|].
         unfold clear_err. cbn. rewrite B, (Fe E). reflexivity.
       + assert (Hl : (length (b_buf st) < bsz)%nat) by (rewrite B; cbn; lia).
         destruct (fill_spec st W Hl) as [A [W1 P]].
         destruct (b_buf (fill bsz st)) as [|c t] eqn:B1.
         * destruct (b_err (fill bsz st)) eqn:E1.
           -- exists (clear_err (fill bsz st)). split; [apply wf_clear_err; exact W1|].
-             destruct W1 as [Fs1 Fe1]. rewrite <- A. unfold absl. rewrite B1, (Fe1 E1). cbn.
+             destruct W1 as [Fe1]. rewrite <- A. unfold absl. rewrite B1, (Fe1 E1). cbn.
              split; [reflexivity|]. rewrite B1, (Fe1 E1). reflexivity.
           -- exfalso. specialize (P eq_refl). rewrite B in P. cbn in P. lia.
         * exists (with_buf (fill bsz st) t). split; [apply wf_with_buf; exact W1|].
@@ -125,47 +127,47 @@ Section Facts.
     d ++ absl st' = absl st /\ wf st' /\ (e = true -> absl st' = []) /\ (e = false -> d <> []) /\
     (length d <= k)%nat.
   Proof.
-    intros k st d e st' W Hk H. unfold bread in H. destruct W as [Fs Fe].
+    intros k st d e st' W Hk H. unfold bread in H. destruct W as [Fe].
     destruct (b_buf st) as [|c t] eqn:B.
     - destruct (b_err st) eqn:E.
       + inversion H; subst. unfold absl, clear_err. cbn [b_buf b_src b_err]. rewrite B, (Fe eq_refl).
         refine (conj _ (conj _ (conj _ (conj _ _)))).
         * reflexivity.
-        * split; [constructor|discriminate].
+        * split; discriminate.
         * reflexivity.
         * discriminate.
         * cbn. lia.
       + destruct (Nat.leb bsz k).
         * destruct (src_read k (b_src st) (b_eofw st)) as [[d1 e1] src1] eqn:R. inversion H; subst.
-          destruct (src_read_spec _ _ _ _ _ _ Hk Fs R) as [A [F1 [C [D L]]]].
+          destruct (src_read_spec _ _ _ _ _ _ Hk R) as [A [C [D L]]].
           unfold absl. cbn [b_buf b_src b_err]. rewrite B. cbn [app].
           refine (conj _ (conj _ (conj _ (conj _ _)))).
           -- exact A.
-          -- split; [exact F1|discriminate].
+          -- split; discriminate.
           -- intros E1. rewrite (C E1). reflexivity.
           -- exact D.
           -- exact L.
         * destruct (src_read bsz (b_src st) (b_eofw st)) as [[d1 e1] src1] eqn:R.
-          destruct (src_read_spec _ _ _ _ _ _ BSZ Fs R) as [A [F1 [C [D L]]]].
+          destruct (src_read_spec _ _ _ _ _ _ BSZ R) as [A [C [D L]]].
           destruct d1 as [|c1 t1].
           -- inversion H; subst. unfold absl. cbn [b_buf b_src b_err]. rewrite B. cbn [app] in *.
              refine (conj _ (conj _ (conj _ (conj _ _)))).
              ++ exact A.
-             ++ split; [exact F1|discriminate].
+             ++ split; discriminate.
              ++ intros E1. rewrite (C E1). reflexivity.
              ++ intros E1. exfalso. exact (D E1 eq_refl).
              ++ cbn. lia.
           -- inversion H; subst. unfold absl. cbn [b_buf b_src b_err]. rewrite B. cbn [app].
              refine (conj _ (conj _ (conj _ (conj _ _)))).
              ++ rewrite app_assoc, firstn_skipn. exact A.
-             ++ split; [exact F1|exact C].
+             ++ split; exact C.
              ++ discriminate.
              ++ intros _. apply firstn_nonempty; [discriminate|exact Hk].
              ++ rewrite firstn_length. apply Nat.le_min_l.
     - inversion H; subst. unfold absl. cbn [with_buf b_buf b_src b_err].
       refine (conj _ (conj _ (conj _ (conj _ _)))).
       + rewrite app_assoc, firstn_skipn. rewrite B. reflexivity.
-      + split; [exact Fs|exact Fe].
+      + split; exact Fe.
       + discriminate.
       + intros _. apply firstn_nonempty; [discriminate|exact Hk].
       + rewrite firstn_length. apply Nat.le_min_l.
@@ -327,10 +329,10 @@ Section Facts.
         split; [reflexivity|]. split; [unfold absl; cbn [with_buf b_buf b_src]; rewrite app_assoc, firstn_skipn; reflexivity|].
         split; [apply wf_with_buf; exact W|]. exists a. split; assumption.
       + assert (E : b_err st = true) by (unfold meas in Hm; destruct (b_err st); [reflexivity|lia]).
-        rewrite E. destruct W as [Fs Fe].
+        rewrite E. destruct W as [Fe].
         exists (b_buf st), SliceEOF, (clear_err (with_buf st [])). split; [reflexivity|].
         unfold absl. cbn [clear_err with_buf b_buf b_src b_err]. rewrite (Fe E). cbn [concat app].
-        split; [reflexivity|]. split; [split; [cbn; rewrite (Fe E); constructor|discriminate]|].
+        split; [reflexivity|]. split; [split; discriminate|].
         split; [apply index_lf_none; exact I|reflexivity].
     - cbn [readslice_loop]. destruct (index_lf (b_buf st)) as [i|] eqn:I.
       + destruct (index_lf_some _ _ I) as [a [Fa Na]].
@@ -338,10 +340,10 @@ Section Facts.
         split; [reflexivity|]. split; [unfold absl; cbn [with_buf b_buf b_src]; rewrite app_assoc, firstn_skipn; reflexivity|].
         split; [apply wf_with_buf; exact W|]. exists a. split; assumption.
       + destruct (b_err st) eqn:E.
-        * destruct W as [Fs Fe].
+        * destruct W as [Fe].
           exists (b_buf st), SliceEOF, (clear_err (with_buf st [])). split; [reflexivity|].
           unfold absl. cbn [clear_err with_buf b_buf b_src b_err]. rewrite (Fe E). cbn [concat app].
-          split; [reflexivity|]. split; [split; [cbn; rewrite (Fe E); constructor|discriminate]|].
+          split; [reflexivity|]. split; [split; discriminate|].
           split; [apply index_lf_none; exact I|reflexivity].
         * destruct (Nat.leb bsz (length (b_buf st))) eqn:L.
           -- exists (b_buf st), SliceFull, (with_buf st []). split; [reflexivity|].
